@@ -30,6 +30,7 @@ def configs(tier):
         # the system is CONSTRUCTED inside the traced function (declaration order of the user's dicts is preserved: keys in
         # non-alphabetical order), per-key weight dicts with distinct symbolic values, per-unknown observation slices
         out.append(dict(kind=kind, inctor=True, B=B))
+        out.append(dict(kind=kind, inctor=True, B=B, shape1=True))
     return out
 
 
@@ -65,8 +66,12 @@ def run_inctor(cfg, R):
             idx: int = eqx.field(static=True, default=0)
             def equation(self, t, x, ud, pd): return body(self.idx, t, x, ud, pd)
     term_names = ("dyn_loss", "initial_condition", "observations") if kind == "ode" else ("dyn_loss", "norm_loss", "boundary_loss", "observations", "initial_condition")
-    wvals = {t: ({k: jnp.array(0.5 + 0.25 * i + 0.125 * j) for j, k in enumerate(ekeys)} if t == "dyn_loss" else
+    shape1 = cfg.get("shape1", False)
+    # dyn weights optionally of shape (1,) (accepted by set_loss_weights); one unknown's weight of one constraint term is exactly 0
+    wvals = {t: ({k: (jnp.array([0.5 + 0.25 * i + 0.125 * j]) if shape1 else jnp.array(0.5 + 0.25 * i + 0.125 * j)) for j, k in enumerate(ekeys)} if t == "dyn_loss" else
                  {k: jnp.array(0.75 + 0.25 * i + 0.5 * j) for j, k in enumerate(ukeys)}) for i, t in enumerate(term_names)}
+    zt = "initial_condition" if kind != "statio" else "boundary_loss"
+    wvals[zt]["prey"] = jnp.array(0.0)
     slices = {"prey": jnp.s_[0:1], "fox": jnp.s_[1:2]}
     obs = {k: {"pinn_in": jnp.arange(1, B * d_in + 1).reshape(B, d_in) * (0.125 + 0.05 * j), "val": jnp.arange(1, B + 1).reshape(B, 1) * 0.25, "eq_params": {}} for j, k in enumerate(ukeys)}
     if kind == "ode":
@@ -79,7 +84,7 @@ def run_inctor(cfg, R):
         ic = {"prey": (lambda x: 0.25 * x[0]), "fox": (lambda x: 0.5 * x[0])}
         batch = PDENonStatioBatch(times_x_inside_batch=jnp.arange(1, 2 * B + 1).reshape(B, 2) * 0.2, times_x_border_batch=jnp.array([[[0.3, 0.3], [0.0, 1.0]]]), obs_batch_dict=obs)
     bfun = {"prey": (lambda *a: 0.5), "fox": (lambda *a: 0.25)}; bcond = {"prey": "dirichlet", "fox": "dirichlet"}
-    name = f"{kind}/constructed-in-trace/dict-weights/obs-slices"
+    name = f"{kind}/constructed-in-trace/dict-weights/obs-slices" + ("/shape1-dyn-weights" if cfg.get("shape1") else "")
     key = f"{kind}:inctor"
     R.note(functions=["jinns.loss.%s.__post_init__/set_loss_weights/evaluate (object built inside the traced function)" % ("SystemLossODE" if kind == "ode" else "SystemLossPDE")])
 
@@ -113,9 +118,6 @@ def run_inctor(cfg, R):
             sing[k] = singles[k].evaluate(params.extract_params(k), bk)[1]
         return tot, res, sing
 
-    tr = R.trace(name, f, (wvals, params, batch), key=key + ":raises")
-    if tr is None: return
-
     def goals(A, O):
         W, p, b_ = A
         tot, res, sing = O
@@ -131,7 +133,7 @@ def run_inctor(cfg, R):
                 if t_ is not None: s_ = add(s_, mul(const(2, "Real"), t_))
                 if x_ is not None: s_ = add(s_, mul(const(3, "Real"), x_[0]))
                 rows.append(sq(uf(f"psi{e}_0", s_)))
-            rows_e.append(mul(W["dyn_loss"][ek][()], mean(rows)))
+            rows_e.append(mul(np.asarray(W["dyn_loss"][ek], dtype=object).reshape(-1)[0], mean(rows)))
         G.append(("dyn_loss == sum_e w_e * mean_i r_e^2 with each equation's own weight (per-key dict, declaration order not alphabetical)", eq(res["dyn_loss"][()], tm.ssum(rows_e))))
         for t in term_names:
             if t == "dyn_loss": continue
@@ -140,10 +142,13 @@ def run_inctor(cfg, R):
         G.append(("total == sum of the returned terms", eq(tot[()], tm.ssum([v[()] for v in res.values()]))))
         return G
 
+    tr = R.trace(name, f, (wvals, params, batch), key=key + ":raises", concrete_goals=goals, fallback_key=key)
+    if tr is None: return
+
     def twins(A, O):
         W, p, b_ = A
         tot, res, sing = O
-        t = "initial_condition" if kind != "statio" else "boundary_loss"
+        t = "observations"
         swapped = tm.ssum([mul(W[t][k2][()], sing[k][t][()]) for k, k2 in zip(ukeys, ukeys[::-1])])
         return [(f"{t} == sum with the two unknowns' weights swapped", eq(res[t][()], swapped))]
 
